@@ -805,7 +805,7 @@ pub mod fastq {
         if self.state == State::Parsing { self.position.line + 4 } else { self.position.line as int }
     }
 
-//@fn fastq::Reader::init ret=r tags=C02,C14,C06 r12=fill_buf
+//@fn fastq::Reader::init ret=r tags=C02,C14,C06
 //@spec
         requires
             old(self).wf(), old(self).state == State::New,
@@ -966,7 +966,7 @@ pub mod fastq {
 }
 
 //@impl_open fastq::Reader::seek
-//@fn fastq::Reader::seek ret=r tags=C05,C06,C14 r12="seek|fill_buf"
+//@fn fastq::Reader::seek ret=r tags=C05,C06,C14
 //@spec
         requires
             old(self).wf(),
